@@ -654,8 +654,12 @@ class _Frame:
                     if isinstance(root, ast.Name):
                         indirect.append(root.id)
         for n in indirect:
-            if env is not None and n in env and env[n].op in ("param", "attr", "sub", "elem", "global"):
-                continue
+            if env is not None and n in env:
+                w = env[n]
+                while w.op == "mut":
+                    w = w.a[0]
+                if w.op in ("param", "attr", "sub", "elem", "global"):
+                    continue
             names.append(n)
         seen = []
         for n in names:
@@ -748,7 +752,8 @@ class _Frame:
         carried = self._assigned_names(s.body, before.env)
         for h in s.handlers:
             hs = before.copy()
-            for n in carried:
+            # a single-statement body raises before its own assignment completes: the handler sees the state before it
+            for n in ([] if len(s.body) == 1 else carried):
                 vals = _dedupe([before.env.get(n, UNDEF)] + ([body_out.env[n]] if body_out is not None and n in body_out.env else []))
                 hs.env[n] = vals[0] if len(vals) == 1 else T("widen", (n, 0, tuple(vals)))
             if h.name:
@@ -840,6 +845,12 @@ class _Frame:
         del self.rec.calls[saved[1]:]
         del self.rec.effects[saved[2]:]
         del self.rec.returns[saved[3]:]
+        # an alias of an object reached through a path keeps denoting that path, however often it was mutated
+        w = v
+        while w.op == "mut":
+            w = w.a[0]
+        if w.op in ("attr", "sub") and w is not v:
+            return w
         return v
 
     # -------------------------------------------------------------- expressions
@@ -1289,8 +1300,10 @@ class _Frame:
             if name in MUTATORS:
                 pth = self.path_of(node.func.value, st) if isinstance(node, ast.Call) and isinstance(node.func, ast.Attribute) else None
                 self.effect("mut-call", recv, name, args[-1] if args else None, args, st, node, path=pth)
-                if pth is not None and pth in st.heap:
-                    st.heap[pth] = T("mut", (st.heap[pth], name, args))      # the stored object is no longer what was stored
+                if pth is not None and pth.op in ("attr", "sub"):
+                    # the object reached through this path is no longer what it was: later reads must not be
+                    # identified with earlier ones
+                    st.heap[pth] = T("mut", (st.heap.get(pth, pth), name, args))
                 root = node.func.value if isinstance(node, ast.Call) and isinstance(node.func, ast.Attribute) else None
                 if isinstance(root, ast.Name) and root.id in st.env and recv.op not in ("param",):
                     st.env[root.id] = T("mut", (recv, name, args))
